@@ -3,6 +3,7 @@ Dedicated schedule enumerator: for every (configured, proposed) hold pair and ev
 over a gap alphabet placed just below / at / just above the deadlines, with every order of
 same-instant ties, executed on the real objects under the virtual clock."""
 import itertools
+import struct
 
 from .. import explore, report, world as W
 from ..ref import wire
@@ -23,8 +24,13 @@ REQ = {'@send': ('POST', '/v1/peer/<ip>/send/update',
 
 def messages():
     m = {'KA': wire.keepalive(), 'UPD': simple_update(65002)}
+    # a peer with many capabilities (graceful restart, enhanced route refresh, ADD-PATH, long-lived GR, 4-octet AS): seldom seen,
+    # and the only sessions in which an End-of-RIB marker (the empty UPDATE, RFC 4724) means something
+    rich = peer_caps() + [wire.cap(70), wire.cap_gr(0x4078, [(1, 1, 0x80)]), wire.cap_addpath([(1, 1, 1)]), wire.cap_llgr([(1, 1, 0, 3600)])]
+    m['EOR'] = wire.frame(wire.UPDATE, b'\x00\x00\x00\x00')
     for h in HOLDS:
         m['OPEN_%d' % h] = wire.open_msg(65002, h, PEER_ID, peer_caps())
+        m['OPEN_%d_rich' % h] = wire.open_msg(65002, h, PEER_ID, rich)
     m.update(REQ)
     return m
 
@@ -65,7 +71,7 @@ def explore_schedule(hc, hp, base, steps, stats, out):
     """Enumerate all tie orders for one schedule; `out(run, closed_info)` is called at each leaf."""
     prefix = [('TICK', 0), ('CONN_OK', 0)]
     if base != 'OPENSENT':
-        prefix.append(('RX', 0, 'OPEN_%d' % hp))
+        prefix.append(('RX', 0, 'OPEN_%d%s' % (hp, RUN_CFG[0].get('_open', ''))))
     if base == 'ESTABLISHED':
         prefix.append(('RX', 0, 'KA'))
 
@@ -215,7 +221,7 @@ def check_run(r, done_steps, base):
 
 
 def schedules(H, depth, base, with_send):
-    msgs = ['KA', 'UPD'] + (['SEND', 'SENDBIG', 'MQBAD', 'MQBAD2'] if with_send else [])
+    msgs = ['KA', 'UPD'] + (['SEND', 'SENDBIG', 'MQBAD', 'MQBAD2'] if with_send is True else ['EOR'] if with_send == 'eor' else [])
     g = gaps_for(H)
     out = [()]
     for n in range(1, depth + 1):
@@ -239,7 +245,7 @@ def task(args):
         t = r.w.sim.connectors[0].transport
         classes.add((base, min(hc, hp) > 0, t.lose_time is not None, tuple(s[0] for s in done)))
         for k, d in check_run(r, done, base):
-            viols.append((k + ('|rib on' if RUN_CFG[0].get('rib') else ''), dict(d, cfg=RUN_CFG[0])))
+            viols.append((k + ('|rib on' if RUN_CFG[0].get('rib') else '|capability-rich peer' if RUN_CFG[0].get('_open') else ''), dict(d, cfg=RUN_CFG[0])))
     for steps in sched_list:
         explore_schedule(hc, hp, base, list(steps), stats, out)
     return {'runs': stats['runs'], 'leaves': leaves[0], 'viols': viols, 'classes': classes, 'schedules': len(sched_list)}
@@ -264,6 +270,11 @@ def run(tier, seed):
         sl = schedules(min(hc, hp), depth, 'ESTABLISHED', with_send=False)
         for i in range(0, len(sl), 200):
             tasks.append((hc, hp, 'ESTABLISHED', sl[i:i + 200], {'rib': True}))
+    # a capability-rich peer (graceful restart ...) whose arrivals include End-of-RIB markers
+    for hc, hp in ((9, 9), (180, 30), (3, 180)):
+        sl = schedules(min(hc, hp), depth, 'ESTABLISHED', with_send='eor')
+        for i in range(0, len(sl), 200):
+            tasks.append((hc, hp, 'ESTABLISHED', sl[i:i + 200], {'_open': '_rich'}))
     explore.HARNESS = None
     results = explore.pmap(task, tasks, chunk=1)
     explore.close_pool()
@@ -305,7 +316,7 @@ def replay(path):
         r = Run(wit['hc'], wit['hp'], [tuple(e) for e in wit['events']])
         r.sends = []
         t = r.w.sim.connectors[0].transport
-        keys = [k + ('|rib on' if RUN_CFG[0].get('rib') else '') for k, _ in check_run(r, [tuple(x) for x in wit['steps']], wit['base'])]
+        keys = [k + ('|rib on' if RUN_CFG[0].get('rib') else '|capability-rich peer' if RUN_CFG[0].get('_open') else '') for k, _ in check_run(r, [tuple(x) for x in wit['steps']], wit['base'])]
         outs.append(([(round(a - r.w.sim.t0, 6), wire.abstract_writes(b)) for a, b in t.writes], t.lose_time, r.w.reported_state(), keys))
     if outs[0] != outs[1]:
         print('HARNESS-ERROR: replay is not deterministic')
